@@ -117,12 +117,7 @@ def _fh(t):
         return float("nan") if "nan" in t else (float("-inf") if t.startswith("-") else float("inf"))
 
 
-def run_os(points, variant="plain", timeout=900):
-    """Returns list: ('OK', ndarray) | ('EXC', class, what)"""
-    ncol = layout(variant)["O"]["__n__"][0]
-    text = "os %d\n" % len(points) + "\n".join(
-        " ".join(hexf(x) for x in flat_os(p)) for p in points) + "\n"
-    out = _run(text, variant, timeout)
+def _parse_os(out, ncol, expect):
     res = []
     for ln in out.split("\n"):
         if not ln.startswith("O "):
@@ -137,9 +132,40 @@ def run_os(points, variant="plain", timeout=900):
             res.append(("OK", v))
         else:
             res.append(("EXC", tk[2], tk[3] if len(tk) > 3 else ""))
-    if len(res) != len(points):
-        raise InfraError("mssm harness: %d results for %d os cases" % (len(res), len(points)))
+    if len(res) != expect:
+        raise InfraError("mssm harness: %d results, expected %d" % (len(res), expect))
     return res
+
+
+def run_os(points, variant="plain", timeout=900):
+    """Returns list: ('OK', ndarray) | ('EXC', class, what)"""
+    ncol = layout(variant)["O"]["__n__"][0]
+    text = "os %d\n" % len(points) + "\n".join(
+        " ".join(hexf(x) for x in flat_os(p)) for p in points) + "\n"
+    return _parse_os(_run(text, variant, timeout), ncol, len(points))
+
+
+def run_osf(families, mode, variant="plain", timeout=900):
+    """families: list of (base point, [target points]) with equal numbers of targets.  The harness evaluates
+    the base model and then (mode & 1) moves the same object through the targets one after the other and/or
+    (mode & 2) moves a copy of the evaluated base model to every target, through the public setters +
+    calculate_masses().  Returns per family {'chain': [results], 'copy': [results]} (results as in run_os)."""
+    ncol = layout(variant)["O"]["__n__"][0]
+    nk = len(families[0][1])
+    assert all(len(t) == nk for _, t in families)
+    nvar = (1 if mode & 1 else 0) + (1 if mode & 2 else 0)
+    text = "osf %d %d %d\n" % (len(families), nk, mode) + "\n".join(
+        " ".join(hexf(x) for x in flat_os(p)) for b, t in families for p in [b] + list(t)) + "\n"
+    res = _parse_os(_run(text, variant, timeout), ncol, len(families) * nk * nvar)
+    out, i = [], 0
+    for _ in families:
+        d = {}
+        if mode & 1:
+            d["chain"] = res[i:i + nk]; i += nk
+        if mode & 2:
+            d["copy"] = res[i:i + nk]; i += nk
+        out.append(d)
+    return out
 
 
 def col(lay, name):
@@ -197,3 +223,114 @@ def os_point(base, tb, signs, k=1.0, force=0.0):
                 Ad=[s["Ab"] * k * b["Ad"][0], s["Ab"] * k * b["Ad"][1], s["Ab"] * k * b["Ad"][2]],
                 Au=[s["At"] * k * b["Au"][0], s["At"] * k * b["Au"][1], s["At"] * k * b["Au"][2]],
                 force=force)
+
+
+# ---------------------------------------------------------------- hierarchy base points (C06)
+# The code paths select minima / sort their arguments (log_scale = min(|M1|,|M2|,|mu|,mse2,msl2), Iabc,
+# Fa, Fb), so every ordering of (|mu|, |M1|, |M2|, m_smuonL, m_smuonR) must occur: the five masses
+# below are assigned in all 120 permutations.  The third-generation sleptons follow the values given to
+# M2 and mu (so that the stau / gaugino / higgsino orderings vary as well), and the gluino is lighter
+# (g0) or heavier (g1) than all squarks.
+HIER_VALUES = [300.0, 520.0, 900.0, 1500.0, 2600.0]
+HIER_NAMES = ["Mu", "M1", "M2", "msl2", "mse2"]
+
+
+def hierarchy_points():
+    import itertools
+    out = {}
+    for perm in itertools.permutations(range(5)):
+        val = dict(zip(HIER_NAMES, (HIER_VALUES[i] for i in perm)))
+        order = "<".join(n for _, n in sorted((val[n], n) for n in HIER_NAMES))
+        for g, m3 in ((0, 600.0), (1, 4000.0)):
+            out["H:%s:g%d" % (order, g)] = dict(
+                Mu=val["Mu"], M1=val["M1"], M2=val["M2"], M3=m3, MA=1000.0, Q=1000.0,
+                msl=[700.0, val["msl2"], 1.1 * val["M2"]], mse=[1100.0, val["mse2"], 0.9 * val["Mu"]],
+                msq=[1800.0, 1900.0, 1400.0], msu=[1750.0, 1850.0, 1200.0], msd=[1700.0, 1950.0, 1600.0],
+                Ae=[250.0, 300.0, 500.0], Ad=[400.0, 450.0, 1200.0], Au=[350.0, 380.0, 900.0])
+    return out
+
+
+HIER_POINTS = hierarchy_points()
+BENCH_POINTS = list(BASE_POINTS)            # the 8 benchmark-derived points (C06, C07)
+BASE_POINTS.update(HIER_POINTS)
+
+
+# ---------------------------------------------------------------- comparison of two result vectors (C06, C07)
+TOL = 1e-9
+# groups of quantities that are sums of the listed parts: a value that is small through cancellation is
+# compared relative to the largest part as well (1e-13: double rounding of the parts)
+GROUPS = {
+    "1L": ["amu1L", "amu1L_nonres", "unc0L", "amu1LChi0", "amu1LChipm", "nr.amu1LChi0", "nr.amu1LChipm"],
+    "2L": ["amu2L", "amu2L_nonres", "unc1L", "amu2LFSfapprox", "amu2LFSfapprox_nonres", "amu2LChipmPhotonic",
+           "amu2LChi0Photonic", "amu2LaSferm", "amu2LaCha", "nr.amu2LFSfapprox", "nr.amu2LFSfapprox_nonres",
+           "nr.amu2LChipmPhotonic", "nr.amu2LChi0Photonic", "nr.amu2LaSferm", "nr.amu2LaCha"],
+    "1Lapprox": ["amu1Lapprox", "amu1Lapprox_nonres", "amu1LWHnu", "amu1LWHmuL", "amu1LBHmuL", "amu1LBHmuR", "amu1LBmuLmuR"],
+    "2Lapprox": ["amu2LWHnu", "amu2LWHmuL", "amu2LBHmuL", "amu2LBHmuR", "amu2LBmuLmuR"],
+}
+SKIP = {"sig_lo"}
+EPS = 2.0 ** -52
+# quantities that carry a mass-eigenstate index -> sectors whose eigenvectors enter
+STATE_INDEXED = {"AAN": ("Chi", "Sm"), "BBN": ("Chi", "Sm"), "AAC": ("Cha",), "BBC": ("Cha",),
+                 "lambda_mu_cha": ("Cha",), "lambda_stop": ("St",), "lambda_sbot": ("Sb",), "lambda_stau": ("Stau",)}
+
+
+def conditioning(lay, V):
+    """||M||/gap per sector from the reported masses (mass matrices for fermions, squared for scalars);
+    V: (npairs, ncol)"""
+    out = {}
+    for sct, name, sq in (("Chi", "MChi", False), ("Cha", "MCha", False), ("Sm", "MSm", True), ("St", "MSt", True),
+                          ("Sb", "MSb", True), ("Stau", "MStau", True)):
+        m = np.sort(V[:, col(lay, name)] ** (2 if sq else 1), axis=1)
+        gap = np.diff(m, axis=1).min(axis=1)
+        with np.errstate(all="ignore"):
+            out[sct] = np.where(gap > 0, m.max(axis=1) / gap, np.inf)
+    return out
+
+
+def compare_block(lay, A, B, skip=()):
+    """A, B: (npairs, ncol) result vectors of the points and of their complete flips.
+    Returns (fails per pair: list of lists of (quantity, element index, x, y, rel), worst rel per quantity).
+    Criterion |x-y| <= 1e-9 max(|x|,|y|) + floor, vectorised over the pairs."""
+    npairs = A.shape[0]
+    fails = [[] for _ in range(npairs)]
+    worst = {}
+    grp = {}
+    groups = [[n for n in names if n in lay] for names in GROUPS.values()]
+    groups += [["nr." + n for n in GROUPS[g] if "nr." + n in lay] for g in ("1Lapprox", "2Lapprox")]
+    for names in groups:
+        cols = [lay[n][0] for n in names]
+        S = np.maximum(np.abs(A[:, cols]).max(axis=1), np.abs(B[:, cols]).max(axis=1))
+        for n in names:
+            grp[n] = S
+    kap = conditioning(lay, A)
+    for n, (off, ln) in lay.items():
+        if n in SKIP or n in skip or n == "__n__" or ln == 0:
+            continue
+        x, y = A[:, off:off + ln], B[:, off:off + ln]
+        amax = np.maximum(np.abs(x).max(axis=1), np.abs(y).max(axis=1))
+        if ln > 1:
+            floor = 1e-13 * amax
+        else:
+            floor = 1e-13 * grp[n] if n in grp else np.zeros(npairs)
+        # per-state couplings of nearly degenerate mass eigenstates are only defined up to
+        # (rounding of the mass matrix)/(eigenvalue gap): 256 eps ||M||/gap of the sectors they are built from
+        scts = STATE_INDEXED.get(n[3:] if n.startswith("nr.") else n, ())
+        if scts:
+            floor = floor + 256 * EPS * sum(kap[sct] for sct in scts) * amax
+        den = np.maximum(np.abs(x), np.abs(y))
+        diff = np.abs(x - y)
+        bad = ~(diff <= TOL * den + floor[:, None])          # NaN counts as failure
+        with np.errstate(all="ignore"):
+            rel = np.where(den > 0, diff / den, 0.0)
+        worst[n] = float(np.nanmax(rel)) if np.isfinite(rel).any() else float("inf")
+        if bad.any():
+            for i, j in zip(*np.nonzero(bad)):
+                fails[int(i)].append((n, int(j), float(x[i, j]), float(y[i, j]), float(rel[i, j])))
+    return fails, worst
+
+
+def compare(lay, a, b, skip=()):
+    f, w = compare_block(lay, a[None, :], b[None, :], skip)
+    return f[0], w
+
+
